@@ -46,6 +46,8 @@ def mutants(prog):
         ("FlowField.write keeps axes", DF, "FlowField.write", "disp = disp.axes(axes or Axes.WORLD)", "disp = disp", "T18.flow-api"),
         ("FlowField.read labels cube", DF, "FlowField.read", "return cls.from_image(image, axes=axes or Axes.WORLD)", "return cls.from_image(image, axes=axes)", "T18.flow-api"),
         ("FlowField.sitk keeps axes", DF, "FlowField.sitk", "disp = disp.axes(axes or Axes.WORLD)", "disp = disp", "T18.flow-api"),
+        ("mha reader: shared module-level dict", M, "read_meta_image_from_fileobj", "meta = dict.fromkeys(META_IMAGE_TAGS, None)", "meta = META_IMAGE_TYPES", "E1.module-state"),
+        ("nifti writer: squeeze every singleton axis", N, "write_nifti_image", "dataobj = np.transpose(data.numpy(), axes=tuple(reversed(range(data.ndim))))", "dataobj = np.squeeze(np.transpose(data.numpy(), axes=tuple(reversed(range(data.ndim))))) if data.shape[0] == 1 else np.transpose(data.numpy(), axes=tuple(reversed(range(data.ndim))))", "T18.singleton"),
     ]
     for name, mod, fn, old, new, expect in specs:
         if expect == "SKIP":
